@@ -687,6 +687,23 @@ def scen_S9(s):
     return finish_b(w, s, r)
 
 
+def scen_S10(s):
+    """start(); end_replication() from the driver; initialize() right away
+    (refused while the run is still winding up): the request to end holds"""
+    w = LC.new_world(times=(0.5,), endless=12, end=1e9, warmup=0.0)
+    I = LC.classes()["issue_raw"]
+    r = [I(w, ("initialize",))]
+    s.wait_quiescent()
+    r.append(I(w, ("start",)))
+    r.append(I(w, ("end_replication",)))
+    n_at = len(w.model.trace)
+    r.append(I(w, ("initialize",)))
+    s.wait_quiescent()
+    obs = finish_b(w, s, r)
+    obs["n_at"] = n_at
+    return obs
+
+
 def scen_S2(s):
     """rapid start/stop alternation on an endless model, then
     end_replication (the repository's start/stop demo)"""
@@ -712,6 +729,7 @@ SCEN = {"S1": (scen_S1, (1.0, 2.0), 3.0), "S3": (scen_S3, (1.0, 2.0, 3.0), 5.0),
         "S6": (scen_S6, (1.0, 2.0, 3.0), 5.0),
         "S8": (scen_S8, (1.0, 2.0), 3.0),
         "S9": (scen_S9, (1.0, 2.0, 3.0), 5.0),
+        "S10": (scen_S10, None, 1e9),
         "S2": (scen_S2, None, 1e9)}
 
 
@@ -801,6 +819,14 @@ def judge_b(name):
                              or o["trace"] != [(1.0, 0)]):
             bad.append(("I1-start-while-running-not-refused", outs, state,
                         o["clock"]))
+        if name == "S10" and outs[2] == "ok" and outs[3] == "DSOLError":
+            # the accepted end_replication() holds although the initialize()
+            # that followed was refused: at most the event in progress runs
+            if state != ("ENDED", "ENDED") or \
+                    len(o["trace"]) > o.get("n_at", 0) + 1:
+                bad.append(("I5-end_replication-lost-after-refused-"
+                            "initialize", state, len(o["trace"]),
+                            o.get("n_at")))
         if name == "S8" and state != ("ENDED", "ENDED"):
             bad.append(("I5-end_replication-did-not-end", state))
         if name == "S2" and state != ("ENDED", "ENDED"):
@@ -936,9 +962,9 @@ def run(ctx):
              depth=depth)
     # ---------------- C04b
     plan = [("S1", 2), ("S3f", 2), ("S4", 2), ("S5cleanup", 2), ("S5init", 1),
-            ("S6", 1), ("S8", 1), ("S9", 1), ("S2", 1)] if quick else \
+            ("S6", 1), ("S8", 1), ("S9", 1), ("S10", 1), ("S2", 1)] if quick else \
         [("S1", 2), ("S3f", 2), ("S3", 2), ("S4", 2), ("S5cleanup", 2),
-         ("S5init", 2), ("S6", 2), ("S8", 2), ("S9", 1), ("S2", 2), ("S1", 3), ("S8", 3),
+         ("S5init", 2), ("S6", 2), ("S8", 2), ("S9", 1), ("S10", 2), ("S2", 2), ("S1", 3), ("S8", 3),
          ("S5cleanup", 3)]
     # (S9 stays at one preemption: with two, the driver can be held inside
     # the wait loop of its first command while virtual time jumps a whole
